@@ -852,6 +852,41 @@ def gen_case_fold(repo, outdir):
     T.write(outdir, 'CaseFold.v', text)
 
 
+
+# ---- EncodedValue.v ---------------------------------------------------------------------------
+
+def gen_encoded_value(repo, outdir):
+    consts = all_constants(repo)
+    src = src_of(repo, 'src/read/cfi.rs')
+    body = T.fn_body(src, r'fn\s+parse_encoded_value\s*<\s*R\s*:\s*Reader\s*>\s*\(\s*encoding\s*:\s*constants::DwEhPe\s*,')
+    if not re.fullmatch(r'matchencoding\.format\(\)\{.*\}', squeeze(body), re.S):
+        raise Unparsed('parse_encoded_value is not a single match on encoding.format()')
+    rows, default = [], False
+    for pats, expr in T.match_arms(body, r'encoding\.format\(\)'):
+        e = squeeze(expr)
+        if pats == ['_']:
+            if e != 'unreachable!()':
+                raise Unparsed('wildcard arm %r' % e)
+            default = True
+            continue
+        if default or len(pats) != 1:
+            raise Unparsed('arm %r' % pats)
+        m = re.fullmatch(r'input\.(read_\w+)\((parameters\.address_size)?\)(?:\.map\((u64::from|\|a\|aasu64)\))?', e)
+        if not m or (m.group(1) == 'read_address') != (m.group(2) is not None):
+            raise Unparsed('arm expression %r' % e)
+        cast = {None: '', 'u64::from': 'u64::from', '|a|aasu64': 'as u64'}[m.group(3)]
+        for v in T.pat_values(pats, consts, 'DW_EH_PE_'):
+            rows.append('(%d, (%s, %s))' % (v, coq_str(m.group(1)), coq_str(cast)))
+    if not default:
+        raise Unparsed('no wildcard arm')
+    text = (HEADER % 'src/read/cfi.rs (parse_encoded_value)' +
+            'From Coq Require Import List NArith String.\nImport ListNotations.\nLocal Open Scope string_scope.\nLocal Open Scope N_scope.\n\n'
+            '(* encoding.format() value -> (reader method, conversion to u64: "" | "u64::from" | "as u64");\n'
+            '   other formats: unreachable!() *)\n'
+            'Definition encoded_value_table : list (N * (string * string)) :=\n  %s.\n' % coq_list(rows, per_line=2))
+    T.write(outdir, 'EncodedValue.v', text)
+
+
 JOBS = [
     ('Constants', gen_constants),
     ('EhPe', gen_ehpe),
@@ -863,4 +898,5 @@ JOBS = [
     ('CfiTable', gen_cfi_table),
     ('LineTable', gen_line_table),
     ('CaseFold', gen_case_fold),
+    ('EncodedValue', gen_encoded_value),
 ]
